@@ -115,7 +115,14 @@ func (f *File) readDataDesc() error {
 	if desc.Signature != dataDescriptorSignature {
 		return errors.New("data descriptor signature is missing")
 	}
-	if f.UncompressedSize >= uint32Max || desc.UncompressedSize != uint32(f.UncompressedSize) || desc.CompressedSize != uint32(f.CompressedSize) {
+	is64 := f.UncompressedSize >= uint32Max || desc.UncompressedSize != uint32(f.UncompressedSize) || desc.CompressedSize != uint32(f.CompressedSize)
+	if !is64 && f.UncompressedSize == 0 && hasZip64Extra(f.lfhExtra) {
+		// A member with no uncompressed data matches both layouts (the upper half of the
+		// 64-bit compressed size reads as a zero 32-bit uncompressed size); the ZIP64 extra
+		// field in the local header is what announces the 64-bit descriptor
+		is64 = true
+	}
+	if is64 {
 		// 64-bit
 		if _, err := f.r.ReadAt(f.ddb[dataDescriptorLen:], pos+dataDescriptorLen); err != nil {
 			return err
@@ -132,6 +139,22 @@ func (f *File) readDataDesc() error {
 		f.CRC32 = desc.CRC32
 	}
 	return nil
+}
+
+// hasZip64Extra reports whether an extra field block contains the ZIP64 extended information record
+func hasZip64Extra(extra []byte) bool {
+	for len(extra) >= 4 {
+		id := binary.LittleEndian.Uint16(extra)
+		size := int(binary.LittleEndian.Uint16(extra[2:]))
+		if id == zip64ExtraID {
+			return true
+		}
+		if 4+size > len(extra) {
+			break
+		}
+		extra = extra[4+size:]
+	}
+	return false
 }
 
 func (f *File) GetDirectoryHeader() ([]byte, error) {
@@ -208,6 +231,11 @@ func (f *File) GetTotalSize() (int64, error) {
 }
 
 func (d *Directory) NewFile(name string, extra, contents []byte, w io.Writer, mtime time.Time, deflate, useDesc bool) (*File, error) {
+	if len(contents) == 0 {
+		// sizes and CRC of an empty member are known (zero); a data descriptor adds nothing and its
+		// width cannot be told apart by a reader when both sizes are zero
+		useDesc = false
+	}
 	var zh zip.FileHeader
 	// need the side effect of this conversion
 	zh.SetModTime(mtime) //nolint:staticcheck
